@@ -34,9 +34,14 @@ def run_one(scn, timeout=120, keep=None, kill_after=None):
                     pass
             elif l.startswith("harness-error") or l.startswith("panic") or l.startswith("crash"):
                 rep = {"harnessLine": l[:2000]}
+        errs = err.decode("utf-8", "replace")
         if rep is None:
             rep = {"died": True, "rc": p.returncode}
-        return rep, err.decode("utf-8", "replace")[-3000:]
+            for l in errs.splitlines():
+                if l.startswith("panic:") or l.startswith("fatal error:"):
+                    rep["panic"] = l[:300]
+                    break
+        return rep, errs[-3000:]
     finally:
         if keep is None:
             shutil.rmtree(d, ignore_errors=True)
